@@ -19,6 +19,8 @@ func main() {
 		softColMain(os.Args[2:])
 	case "resource":
 		resourceMain(os.Args[2:])
+	case "filter":
+		filterMain(os.Args[2:])
 	case "schema":
 		schemaMain(os.Args[2:])
 	default:
